@@ -351,7 +351,7 @@ func analyseParserLoop(c *core.Ctx, want map[string]bool) {
 			trimSet = args[1]
 			trims["line|"+args[1].Key()] = pos
 			return v, true
-		case callee != nil && inRoot && callee.String() == "strings.Trim" && len(args) == 2:
+		case callee != nil && callee.String() == "strings.Trim" && len(args) == 2 && frameInPkg(s, parserPkg):
 			role := "other"
 			if st, ok := args[0].(*absint.Term); ok && st.Op == "slice" && len(st.Args) == 3 {
 				lo, hi := st.Args[1].Key(), st.Args[2].Key()
@@ -364,7 +364,7 @@ func analyseParserLoop(c *core.Ctx, want map[string]bool) {
 			}
 			trims[role+"|"+args[1].Key()] = pos
 			return nil, false
-		case callee != nil && inRoot && strings.HasPrefix(callee.String(), "strings.LastIndex") && len(args) == 2:
+		case callee != nil && strings.HasPrefix(callee.String(), "strings.LastIndex") && len(args) == 2 && frameInPkg(s, parserPkg):
 			splitters[callee.String()+"|"+args[1].Key()] = pos
 			return nil, false
 		case callee == nil && fnv != nil && fnv.Key() == cbKey && len(args) == 2:
@@ -444,8 +444,8 @@ func analyseParserLoop(c *core.Ctx, want map[string]bool) {
 		if !ok {
 			return
 		}
-		if len(s.Frames) > 1 {
-			return // constructors initialising their own result
+		if top := s.Frames[len(s.Frames)-1]; len(s.Frames) > 1 && strings.HasPrefix(p.Loc, "A:"+top.Ctx+"/") {
+			return // a constructor initialising the object it has just allocated
 		}
 		if strings.HasSuffix(p.Loc, "·Metadata") {
 			if vp, ok := val.(absint.Ptr); ok {
@@ -781,4 +781,12 @@ func readEBNF(dir string) map[string]string {
 		}
 	}
 	return out
+}
+
+// frameInPkg: the innermost frame executes a function of package path.
+func frameInPkg(s *absint.State, path string) bool {
+	if len(s.Frames) == 0 {
+		return false
+	}
+	return core.FnPkgPath(s.Frames[len(s.Frames)-1].Fn) == path
 }
